@@ -366,9 +366,9 @@ def toSend : Res → Option (SendResult × Bytes × List Ev)
   | _ => none
 
 def runRecv (cfg : Cfg) (body : Stmt) (size : Nat) (stream : Bytes) (script : List Ev) : Res :=
-  exec cfg body (script.length + 2) none [("size", .int size)] ⟨stream, [], script⟩
+  exec cfg body (script.length + 2) none [("p1", .int size)] ⟨stream, [], script⟩
 
 def runSend (cfg : Cfg) (body : Stmt) (data : Bytes) (script : List Ev) : Res :=
-  exec cfg body (script.length + 2) none [("data", .bytes data)] ⟨[], [], script⟩
+  exec cfg body (script.length + 2) none [("p1", .bytes data)] ⟨[], [], script⟩
 
 end Pyro.PyIR
